@@ -94,6 +94,13 @@ def center_find(image, centers=1, threshold=.5, blursize=3.):
     if blursize>0:
         image.values = gaussian_filter(image.values, blursize)
     col_deriv, row_deriv = image_gradient(image)
+    if len(image.x) > 1 and len(image.y) > 1:
+        # pixels need not be square: the derivatives are per pixel, and the
+        # line through a pixel along the physical gradient has the direction
+        # (g_x / s_x**2, g_y / s_y**2) in pixel units
+        x_step = np.diff(image.x.values)[0]
+        y_step = np.diff(image.y.values)[0]
+        col_deriv = col_deriv * (y_step / x_step) ** 2
     res = hough(col_deriv, row_deriv, centers, threshold)
     if centers==1:
         res = res[0]
